@@ -101,6 +101,18 @@ def _size(v, cap):
     return n
 
 
+def _line_col(source, position):
+    """reference for GraphQLLocatedError.to_dict()'s locations, mirroring _string_utils.index_to_loc as
+    documented by its doctests: only "\n" starts a new line (a "\r" before it is an ordinary column);
+    U+2028 / U+2029 / U+0085 / \v / \f are ordinary characters"""
+    before = source[:position]
+    return [before.count("\n") + 1, position - (before.rfind("\n") + 1) + 1]
+
+
+def _core(e):
+    return {k: v for k, v in e.items() if k not in ("linecol", "linecol_ref")}
+
+
 def _observe(fn):
     try:
         res = fn()
@@ -134,6 +146,10 @@ def _observe(fn):
             "kind": kind,
             "msg": e.message if kind == "resolver" else None,
             "ext": (dict(e.extensions) if e.extensions else e.extensions) if kind == "resolver" else None,
+            # the locations a client sees (line, column) and what they must be for these nodes
+            "linecol": [[loc["line"], loc["column"]] for loc in e.to_dict().get("locations", [])],
+            "linecol_ref": [_line_col(n.source, n.loc[0]) for n in getattr(e, "nodes", [])
+                            if n.loc and n.source],
         })
     return {"data": res.data, "errors": errors}
 
@@ -339,10 +355,38 @@ def run_stream(case):
 
 
 # ---------------------------------------------------------------- generation
+_ODD = ["\u2028", "\u2029", "\u0085"]
+
+
+def decorate(rng, text):
+    """multi-line layout and comments carrying characters that str.splitlines() treats as line breaks but
+    GraphQL (and index_to_loc) does not; string literals are left alone (they get such characters from the
+    operation generator)"""
+    if rng.random() < 0.45:
+        return text
+    parts = text.split('"')
+    for i in range(0, len(parts), 2):                      # outside string literals
+        seg = parts[i]
+        out = []
+        for ch in seg:
+            if ch == " " and rng.random() < 0.12:
+                out.append(rng.choice(["\n", "\n  ", "\r\n", "\n\n"]))
+            elif ch == "{" and rng.random() < 0.10:
+                out.append("{ #c%sc%s\n" % (rng.choice(_ODD), rng.choice(_ODD + ["", " x"])))
+            else:
+                out.append(ch)
+        parts[i] = "".join(out)
+    text = '"'.join(parts)
+    if rng.random() < 0.5:
+        text = "# head%sline%s\n" % (rng.choice(_ODD), rng.choice(_ODD)) + text
+    return text
+
+
 def _gen_request(rng, desc, allow_crash, max_sel=40, tries=12):
     """a valid request with its recorded world, or None"""
     for _ in range(tries):
         text, raw, opname, feats = G.gen_operation(rng, desc, max_sel=max_sel)
+        text = decorate(rng, text)
         dispatch = G.Dispatch()
         schema = G.build_schema(desc, dispatch)
         try:
@@ -570,10 +614,11 @@ def _rt_violations(case, obs):
     doc = parse(case["request"]["text"])
     floc = {(s_.alias or s_.name).value: list(s_.loc) for s_ in doc.definitions[0].selection_set.selections}
     for n, (f, pos) in enumerate(sorted(case["booms"].items())):
-        before = [e for e in ctl["errors"] if e["path"][0] == f and tuple(e["path"][1:1 + len(pos)]) < tuple(pos)]
+        before = [_core(e) for e in ctl["errors"]
+                  if e["path"][0] == f and tuple(e["path"][1:1 + len(pos)]) < tuple(pos)]
         want = before + [{"path": [f], "locs": [floc[f]], "kind": "resolver",
                           "msg": "cannot resolve type %d" % (n + 1), "ext": {"why": n + 1}}]
-        have = [e for e in got["errors"] if e["path"][0] == f]
+        have = [_core(e) for e in got["errors"] if e["path"][0] == f]
         if got["data"].get(f, 0) is not None or have != want:
             bad.append("field %s with a raising resolve_type at %s: data %r, errors %r (expected null and %r)"
                        % (f, pos, got["data"].get(f, "<missing>"), have, want))
@@ -585,6 +630,40 @@ def _rt_violations(case, obs):
     if list(got["data"]) != list(ctl["data"]):
         bad.append("key order changed")
     return bad
+
+
+# ---------------------------------------------------------------- meta fields below the root
+# `__schema` / `__type` are only defined on the query root type; documents selecting them elsewhere do not
+# validate, so on a correct tree every attempt below is discarded. If validation lets one through, the
+# executor meets a field it has no definition for: the case is kept and shows what happens (the model has no
+# result for it; an UnboundLocalError out of the entry point is a direct violation).
+def gen_meta_attempt(rng):
+    desc = G.gen_schema(rng)
+    idx = G.type_index(desc)
+    comp = [f for f in idx[desc["query"]]["fields"]
+            if G.named_of(f["type"]) in idx and idx[G.named_of(f["type"])]["kind"] in ("object", "interface", "union")
+            and not any(not isinstance(a["type"], str) and a["default"] is None for a in f["args"])]
+    if not comp:
+        return None
+    f = rng.choice(comp)
+    meta = rng.choice(['__schema { queryType { name } }', '__type(name: "Query") { name }',
+                       '__schema { types { name } }'])
+    text = "{ %s { __typename %s } }" % (f["name"], meta)
+    dispatch = G.Dispatch()
+    schema = G.build_schema(desc, dispatch)
+    try:
+        if not validate_ast(schema, parse(text)):
+            _STATS["meta_below_root_rejected_by_validation"] = _STATS.get("meta_below_root_rejected_by_validation", 0) + 1
+            return None
+    except Exception:  # noqa
+        return None
+    wrng = random.Random(rng.getrandbits(48))
+    world = G.World(desc, rng=wrng, allow_crash=False, p_error=0.0)
+    req = {"text": text, "variables": {}, "opname": None, "root": world.root_value(), "features": ["meta-below-root"]}
+    dispatch.world = world
+    _observe(lambda: graphql_blocking(schema, parse(text), root=copy.deepcopy(req["root"]), validators=[_no_validation]))
+    req["world"] = world.entries()
+    return {"schema": desc, "request": req, "history": []}
 
 
 def generate(rng, tier):
@@ -599,6 +678,10 @@ def generate(rng, tier):
     # user resolve_type raising ResolverError at first / middle / last items (20 quick, 300 thorough)
     for _ in range(20 if tier == "quick" else 300):
         cases.append(gen_rt_case(rng))
+    for _ in range(12 if tier == "quick" else 100):
+        c = gen_meta_attempt(rng)
+        if c is not None:
+            cases.append(c)
     return cases
 
 
@@ -654,10 +737,28 @@ def classify(case, obs):
     return "result-equals-specified-result", None
 
 
+def _location_violations(observables):
+    out = []
+    for o in observables:
+        for e in (o.get("errors") or []):
+            if e.get("linecol") != e.get("linecol_ref"):
+                out.append(("error-location (line, column) of the field: reported %r, the node is at %r (path %r)"
+                            % (e.get("linecol"), e.get("linecol_ref"), e.get("path")), None))
+                return out
+        if o.get("exc") in ("UnboundLocalError", "NameError"):
+            out.append(("executor crashed on a document that passed validation: %s" % o.get("msg"), None))
+            return out
+    return out
+
+
 def direct_checks(case, obs):
     out = []
+    if case.get("kind") == "stream":
+        out = _location_violations([x for st in obs["stream"] for x in st["obs"]])
+    else:
+        out = _location_violations(list(obs["obs"]) + list(obs.get("raising", [])))
     if case.get("kind") == "rtraise":
-        out = [("failing-resolve_type-is-local-to-its-field: " + b, None) for b in _rt_violations(case, obs)]
+        out += [("failing-resolve_type-is-local-to-its-field: " + b, None) for b in _rt_violations(case, obs)]
     if case.get("kind") == "stream":
         if obs.get("first_bad") is not None:
             out.append(("result-independent-of-earlier-requests: request #%d of the stream answers differently "
@@ -724,4 +825,5 @@ def extra_evidence(cases, obss):
         "operation_features": feats, "error_kinds": kinds, "cases_with_errors": with_err,
         "cases_crashing": crashes, "cases_with_history": hist, "schema_built_via": via,
         "same_schema_text_streams": streams,
+        "meta_below_root_rejected_by_validation": _STATS.get("meta_below_root_rejected_by_validation", 0),
         "operations_generated": _STATS["generated"], "invalid_discarded": _STATS["invalid_discarded"]}}
